@@ -85,7 +85,7 @@ def generate(seed, tier):
             feats = feats + ["draw-TruncNormal"]
         cfg = {"transform_categoricals": True} if rng.random() < 0.3 else {}
         cases.append({"id": f"gen-{cs}", "kind": "program", "text": program_str(prog), "ast": prog.to_json(),
-                      "N": 3 if tier == "quick" else 4, "max_paths": 60 if tier == "quick" else 400, "settings": cfg,
+                      "N": 2 if tier == "quick" else 3, "max_paths": 150 if tier == "quick" else 1200, "settings": cfg,
                       "features": feats + (["transform_categoricals"] if cfg else [])})
     k = 0
     for fam, plist in SAMPLER_PARAMS.items():
@@ -232,10 +232,25 @@ def law_of_call(c):
     return ("?" + n,)
 
 
-def replay(prog, calls, sim_states, cfg, N):
-    """lock-step replay; raises Mismatch; returns number of comparisons"""
+NSAMPLES = 2
+
+
+def replay_runs(prog, calls, runs, cfg, N):
+    """replay several consecutive samples of one simulate() call against the same tape"""
     calls = [c for c in calls if c["kind"] != "det"]
     pos = [0]
+    total = 0
+    for k, sim_states in enumerate(runs):
+        last = k == len(runs) - 1
+        n, _ = replay(prog, calls, sim_states, cfg, N, pos=pos, must_consume_all=last, label=f"sample {k + 1}: ")
+        total += n
+    return total
+
+
+def replay(prog, calls, sim_states, cfg, N, pos=None, must_consume_all=True, label=""):
+    """lock-step replay; raises Mismatch; returns number of comparisons"""
+    calls = [c for c in calls if c["kind"] != "det"]
+    pos = [0] if pos is None else pos
     ncmp = [0]
     beta_pending = []
 
@@ -282,7 +297,7 @@ def replay(prog, calls, sim_states, cfg, N):
     ref_states = [interp.run_init()]
     for _ in range(N):
         ref_states.append(interp.step())
-    if pos[0] != len(calls):
+    if must_consume_all and pos[0] != len(calls):
         raise Mismatch("extra-random-call", f"the simulator made {len(calls)} random calls but the semantics only demands {pos[0]}; first extra: {calls[pos[0]]}")
     for n, (rs, ss) in enumerate(zip(ref_states, sim_states)):
         for v, x in rs.items():
@@ -290,7 +305,7 @@ def replay(prog, calls, sim_states, cfg, N):
                 raise Mismatch("variable-missing-in-simulation", f"after iteration {n} the simulator state lacks {v}")
             ncmp[0] += 1
             if isinstance(x, AP) or not close(x, ss[v]):
-                raise Mismatch("state-differs", f"after iteration {n}: {v} = {ss[v]} in the simulation but {x} under the reference semantics (same random outcomes)")
+                raise Mismatch("state-differs", f"{label}after iteration {n}: {v} = {ss[v]} in the simulation but {x} under the reference semantics (same random outcomes)")
     return ncmp[0], ref_states
 
 
@@ -319,17 +334,18 @@ def run_program_case(case, tier):
             tape = Tape(prefix)
             try:
                 with scripted(tape):
-                    result = Simulator(N).simulate(program, [], 1)
+                    result = Simulator(N).simulate(program, [], NSAMPLES)
                 res["events"]["Simulator.simulate"] = res["events"].get("Simulator.simulate", 0) + 1
             except Exception as e:
                 res["refusals"].append(P.refusal_key(e))
                 break
-            run = result.samples[0]
-            sim_states = [{str(k): float(v) for k, v in st.items()} for st in run]
+            # several samples in ONE simulate() call: the tape continues across samples; each sample is one run of the program
+            runs = [[{str(k): float(v) for k, v in st.items()} for st in run] for run in result.samples]
+            sim_states = runs[0]
             paths += 1
             ncalls += len(tape.calls)
             try:
-                ncmp, ref_states = replay(prog, tape.calls, sim_states, cfg, N)
+                ncmp = replay_runs(prog, tape.calls, runs, cfg, N)
                 res["comparisons"] += ncmp
             except Mismatch as m:
                 res["violations"].append({"kind": m.kind, "key": None, "detail": m.detail + f" [path prefix {prefix}]"})
@@ -344,7 +360,8 @@ def run_program_case(case, tier):
             for c in disc:
                 pr *= c["probs"][c["chosen"]]
             total_prob += pr
-            key = tuple(sorted((k, round(v, 9)) for k, v in sim_states[-1].items()))
+            # joint outcome of all samples of this simulate() call (the samples are independent runs)
+            key = tuple(tuple(sorted((k, round(v, 9)) for k, v in r[-1].items())) for r in runs)
             law[key] = law.get(key, 0.0) + pr
             # next path (depth-first over the discrete choices, skipping zero-probability alternatives)
             chosen = [c["chosen"] for c in disc]
@@ -381,9 +398,10 @@ def run_program_case(case, tier):
                     for st, p in dist.items():
                         key = tuple(sorted((v, round(float(x), 9)) for v, x in zip(names, st)))
                         ref_law[key] = ref_law.get(key, 0.0) + float(p)
+                    # marginal law of each sample must be the exact law (and the samples are independent: product law)
                     sim_law = {}
                     for key, p in law.items():
-                        kk = tuple((k, v) for k, v in key if k in names)
+                        kk = tuple((k, v) for k, v in key[-1] if k in names)   # the LAST sample of the call
                         sim_law[kk] = sim_law.get(kk, 0.0) + p
                     for key in set(ref_law) | set(sim_law):
                         res["comparisons"] += 1
